@@ -18,6 +18,12 @@ PY = sys.executable
 
 # (property, name, file, old, new)
 MUTANTS: list[tuple[str, str, str, str, str]] = [
+	('C04', 'loader-unload-keeps-symbols', 'rogw/tranp/providers/module.py', '		self.db.unload(module_path.path)\n', ''),
+	('C04', 'entrypoints-unload-noop', 'rogw/tranp/syntax/ast/entrypoints.py', '		if module_path in self.__entrypoints:\n			del self.__entrypoints[module_path]\n', '		pass\n'),
+	('C04', 'symboldb-unload-by-prefix', 'rogw/tranp/semantics/reflection/db.py', 'in_module_keys = [key for key in self.__items.keys() if self.__paths[key][0] == module_path]', 'in_module_keys = [key for key in self.__items.keys() if self.__paths[key][0].startswith(module_path)]'),
+	('C04', 'depends-stack-reads-bottom', 'rogw/tranp/implements/cpp/transpiler/py2cpp.py', '		depends = self.__stack_on_depends[-1].copy()\n', '		depends = self.__stack_on_depends[0].copy()\n'),
+	('C04', 'depends-stack-never-popped', 'rogw/tranp/implements/cpp/transpiler/py2cpp.py', '		self.__stack_on_depends.append([])\n		result = self.__procedure.exec(node)\n		self.__stack_on_depends.pop()\n', '		if not self.__stack_on_depends:\n			self.__stack_on_depends.append([])\n		result = self.__procedure.exec(node)\n'),
+	('C04', 'node-resolver-shared-between-modules', 'rogw/tranp/app/config.py', "		'rogw.tranp.module.modules.Modules': 'rogw.tranp.module.modules.Modules',\n", "		'rogw.tranp.module.modules.Modules': 'rogw.tranp.module.modules.Modules',\n		'rogw.tranp.syntax.node.resolver.NodeResolver': 'rogw.tranp.syntax.node.resolver.NodeResolver',\n"),
 	('C05', 'tree-identity-without-mtime', 'rogw/tranp/implements/syntax/lark/parser.py', "\t\t\t'mtime': str(self.__sources.mtime(source_path)),\n", ''),
 	('C05', 'symbol-identity-without-imports', 'rogw/tranp/module/module.py', "		depends_files = [module_path_to_filepath(import_node.import_path.tokens, f'.{self.module_path.language}') for import_node in self.entrypoint.imports]\n", '		depends_files = []\n'),
 	('C05', 'cache-enabled-flag-inverted-for-dummy', 'rogw/tranp/cache/cache.py', 'ctor = CachedProxy if self.__setting.enabled else CachedDummy', 'ctor = CachedProxy'),
